@@ -1051,3 +1051,14 @@ def standard_history(repo: Repo, rep: Report, func: str, kind: str, extra_kw: Op
             return inst.w.call(func, inst.s, arr, 2, **kw)
         calls.append((f"{h}x{w} grid form", on_grid))
     history_rule(repo, rep, func, calls, prim=prim)
+
+
+def engine_selfcheck(rep: Any) -> None:
+    """the canonical form must preserve meaning (sa/selftest/canon_check.py): random trees through every constructor, compared with an
+    independent evaluator on a grid of assignments.  A failure makes the ENC verdicts worthless, so the check refuses to give one."""
+    from ..selftest import canon_check
+
+    msg = canon_check.run(seed=getattr(rep, "seed", 0) or 0, rounds=40 if rep.tier != "thorough" else 400)
+    if msg:
+        raise AnalysisError(f"ENC engine self-check failed - the canonical form changes the meaning of a constraint: {msg}")
+    rep.extra["engine_selfcheck"] = "canonical form preserves meaning on random trees (cmp/neg/nary/iff/add/fold against an independent evaluator)"
